@@ -195,6 +195,11 @@ pub fn c01(tier: &str) -> Vec<Family> {
     g.scenarios.retain(|s| s.label.starts_with("lag_above") || s.label.starts_with("lag_no_tolerance"));
     fams.push(g);
     fams.push(Family::new("far_future", TAGS_TIME, far_future_scenarios(&spec)));
+    {
+        let c9 = family_named(c09(tier), "cancelled_runs");
+        let thin: Vec<Scenario> = c9.scenarios.into_iter().enumerate().filter(|(i, _)| tier != "quick" || i % 3 == 0).map(|(_, s)| s).collect();
+        fams.push(Family::new("cancelled_runs", TAGS_TIME, thin).cap(20_000));
+    }
     // Many models, each arming an event on itself from init, on the real multi-threaded executor:
     // a step that advances the time runs every action that was due.
     let tickers = |n: usize| -> Arc<BenchSpec> {
@@ -1239,6 +1244,54 @@ pub const TAGS_SCHED_INIT: &[&str] = &[
 // C09
 // ---------------------------------------------------------------------------
 
+pub const TAGS_CANCEL_RUNS: &[&str] = &["cancel_ignored", "sched_missed", "sched_dup", "sched_wrong_time", "step_time", "cmd_time", "handler_time", "same_origin_order"];
+
+/// Runs of two or three cancelled actions that are adjacent in the scheduler queue (at one time
+/// stamp or at successive ones, at the head of the queue, between live actions of the same
+/// origin, at its tail), of every keyed kind; the live actions around them must run, in order,
+/// and a step never stops at the time of a cancelled action. `spec` needs two nodes and source 0.
+pub fn cancelled_runs(spec: &Arc<BenchSpec>) -> Vec<Scenario> {
+    use Cmd::*;
+    let live = |t: i64, v: i64| Sched { node: 0, kind: SKind::Once, when: When::Abs(t), tag: 1, val: v, slot: 9 };
+    let keyed = |kind: usize, t: i64, v: i64, slot: usize| -> Cmd {
+        match kind {
+            0 => Sched { node: 0, kind: SKind::Keyed, when: When::Abs(t), tag: 1, val: v, slot },
+            1 => Sched { node: 0, kind: SKind::KeyedPeriodic(1), when: When::Abs(t), tag: 1, val: v, slot },
+            2 => SchedSrc { src: 0, kind: SKind::Keyed, when: When::Abs(t), tag: 1, val: v, slot },
+            _ => SchedSrc { src: 0, kind: SKind::KeyedPeriodic(1), when: When::Abs(t), tag: 1, val: v, slot },
+        }
+    };
+    let mut sc = vec![];
+    for k1 in 0..4usize {
+        for k2 in 0..4usize {
+            for (shape, times) in [("same_time", [2i64, 2, 2]), ("successive", [1, 2, 3]), ("pair_then_gap", [1, 1, 3])] {
+                for run in [2usize, 3] {
+                    for (pos, before, after) in [("head", 0usize, 2usize), ("middle", 2, 2), ("tail", 2, 0)] {
+                        let mut cmds = vec![];
+                        let t0 = times[0];
+                        for b in 0..before {
+                            cmds.push(live(t0, 10 + b as i64));
+                        }
+                        for r in 0..run {
+                            cmds.push(keyed(if r % 2 == 0 { k1 } else { k2 }, times[r], 20 + r as i64, r));
+                        }
+                        for a in 0..after {
+                            cmds.push(live(times[run - 1], 30 + a as i64));
+                        }
+                        cmds.push(live(5, 40));
+                        for r in 0..run {
+                            cmds.push(Cancel { slot: r });
+                        }
+                        cmds.extend([Step, Step, StepUntil(When::Abs(6))]);
+                        sc.push(scn(format!("cancelled_run/{}/{}x{}{}/{}", shape, run, k1, k2, pos), spec, cmds));
+                    }
+                }
+            }
+        }
+    }
+    sc
+}
+
 pub fn c09(tier: &str) -> Vec<Family> {
     let cap = if tier == "quick" { 20_000 } else { 1_000_000 };
     // A handles events; tag 5 cancels slot 0, tag 6 cancels slot 1 (clone),
@@ -1354,6 +1407,7 @@ pub fn c09(tier: &str) -> Vec<Family> {
         ));
     }
     vec![
+        Family::new("cancelled_runs", TAGS_CANCEL_RUNS, cancelled_runs(&spec)).cap(cap),
         Family::new("auto_keys", &["cancel_ignored", "sched_missed", "sched_dup", "sched_wrong_time"], sc3).cap(cap),
         Family::new(
             "cancellation_sequences",
